@@ -218,7 +218,9 @@ theorem revertCasm_storeCasm {casm casm' : Map Nat CasmMeta} {b : Block} (n : Na
   unfold storeCasm at h
   by_cases hv : b.ver ≥ 2
   · simp only [hv, if_true] at h
-    exact revertCasm_v2 n ok' h
+    split at h
+    · exact revertCasm_v2 n ok' h
+    · cases h
   · simp only [hv, if_false] at h
     have hmig : b.diff.migrated = [] := hmv (by omega)
     split at h
